@@ -146,7 +146,7 @@ class World:
         self.speed = [1.0] * nranks
         if self.strategy == 'priority':
             for i, r in enumerate(perm):
-                self.speed[r] = 1000.0 ** i
+                self.speed[r] = 100.0 ** i
         elif self.strategy == 'straggler':
             self.speed[perm[0]] = 100.0
         # clock model (what the code *sees*; never influences scheduling)
